@@ -4,6 +4,11 @@
 // bbiwrite::encode_zoom_section: a batch of zoom records -> one on-disk zoom block.
 // C07/C08/C09: block bytes == published zoom-record layout (32 bytes per record), block span
 // covers every record in it, one chromosome, advertised uncompressed size == real size.
+// Round 6 (this unit has no NOTES.md): the template does not depend on the `(out_bytes, size)` tuple any more -- the
+// type shim `(bytes, 0)` -> `(bytes.bytes, 0)` is min=0 with a twin for a bare `} else { bytes }`, the proof splice
+// anchors on `let .. = if compress {`, the libdeflater cluster accepts `truncate(actual_sz)` for `resize(actual_sz, 0)`.
+// The "tidied" `let uncompressed_buf_size = bytes.len(); let out_bytes = if compress {..} else { bytes };` is judged:
+// VIOLATION advertised_uncompressed_size (0 iff not compressed); it used to end as "anchor lost".
 use vstd::prelude::*;
 use vstd::std_specs::ops::*;
 use vstd::std_specs::convert::FromSpec;
@@ -105,11 +110,12 @@ proof fn lemma_max_end_sorted(s: Seq<ZoomRecord>, n: int)
 //@rule R7 min=1
 //@rule R8
 //@presub /use libdeflater::\{CompressionLvl, Compressor\};\n/ => ""
-//@presub /let mut compressor = Compressor::new\(CompressionLvl::default\(\)\);\s*let max_sz = compressor\.zlib_compress_bound\(bytes\.len\(\)\);\s*let mut compressed_data = vec!\[0; max_sz\];\s*let actual_sz = compressor\s*\.zlib_compress\(&bytes, &mut compressed_data\)\s*\.unwrap\(\);\s*compressed_data\.resize\(actual_sz, 0\);/ => let compressed_data = deflate_vec(&bytes); let actual_sz = compressed_data.len(); let max_sz = actual_sz;
+//@presub /let mut compressor = Compressor::new\(CompressionLvl::default\(\)\);\s*let max_sz = compressor\.zlib_compress_bound\(bytes\.len\(\)\);\s*let mut compressed_data = vec!\[0; max_sz\];\s*let actual_sz = compressor\s*\.zlib_compress\(&bytes, &mut compressed_data\)\s*\.unwrap\(\);\s*compressed_data\.(?:resize\(actual_sz, 0\)|truncate\(actual_sz\));/ => let compressed_data = deflate_vec(&bytes); let actual_sz = compressed_data.len(); let max_sz = actual_sz;
 //@sub /(\w+)\s*\.iter\(\)\s*\.map\(\|(\w+)\| \2\.(start|end)\)\s*\.fold\(([^;]*?), u32::max\)/ => fold_max_\3(&\1, \4) min=0
 //@sub /(\w+)\s*\.iter\(\)\s*\.map\(\|(\w+)\| \2\.(start|end)\)\s*\.(max|min)\(\)\s*\.unwrap\(\)/ => \4_of_\3(&\1) min=0
 //@sub /let mut bytes = Vec::with_capacity\(items_in_section\.len\(\) \* 32\);/ => let mut bytes = Sink::with_capacity(0);
-//@sub /\(bytes, 0\)/ => (bytes.bytes, 0)
+//@sub /\(bytes, 0\)/ => (bytes.bytes, 0) min=0
+//@sub /\}\s*else\s*\{\s*bytes\s*\}/ => } else { bytes.bytes } min=0
 //@sub /io::Result</ => Result<
 //@sub /usize\)> \{/ => usize), IoError> {
 //@sub /\((item\.summary\.\w+) as f32\)/ => (f64_to_f32(\1)) min=0
@@ -147,7 +153,7 @@ proof fn lemma_max_end_sorted(s: Seq<ZoomRecord>, n: int)
         proof {
             assert(bytes@ == put_zoom_rec(b0, *item)); [[L: loop/record_layout]]
         }
-//@at /let \(out_bytes, uncompressed_buf_size\) = if compress/ before
+//@at /let [^=;]*= if compress \{/ before
     proof {
         assert(items_in_section@.subrange(0, items_in_section@.len() as int) =~= items_in_section@);
         lemma_fmt_len(items_in_section@);
